@@ -73,8 +73,10 @@ def dirToTimed (le : List Char → List Char → Bool) (p s : List Char) (i2t : 
 
 /-! ## token dir -> TextGrid files (`--infer`) -/
 
-/-- `T = ref[..., 1:].max()` over all start and end frames (`0` stands for the `RuntimeError`
-of `max` on an empty tensor — never reached by the theorems, which need `R ≥ 1`). -/
+/-- `T = ref[..., 1:].max()` over all start and end frames. On an empty tensor (`R = 0`: a TextGrid
+whose tier has no interval is stored as a `(0, 3)` tensor) `max()` raises `RuntimeError`; that case is
+caught by `tokToTextGrid` BEFORE this value is used (`TgCmdErr.emptyMax`), so the `0` below is never
+the model's answer for the command. -/
 def maxFrame (rows : List (Int × Int × Int)) : Int :=
   match rows.flatMap (fun r => [r.2.1, r.2.2]) with
   | [] => 0
@@ -94,17 +96,20 @@ def tgOpts (T : Rat) (tierName : String) (pointTier : Bool) (precision : Nat) : 
     precision := precision }
 
 inductive TgCmdErr where
+  | emptyMax      -- `RuntimeError`: `ref[..., 1:].max()` on a tensor without rows (`R = 0`)
   | otherMethod   -- the rows do not pass the test of method 1 (methods 2 and 3 are not modelled)
   | value         -- `ValueError`: an id without token, or "could not write textgrid"
   deriving Repr, DecidableEq
 
-/-- `_torch_token_data_dir_to_textgrids_do_work` for one `(R, 3)` file with `--infer`: method 1,
+/-- `_torch_token_data_dir_to_textgrids_do_work` for one `(R, 3)` file with `--infer`: the length
+`T` (a `RuntimeError` when there are no rows — evaluated first, as in the code), method 1,
 `token_to_transcript`, the check that every id has a token, and `write_textgrid` through its path
 branch, which forwards exactly the options `fwd` (every exception of the writer is re-raised as
 `ValueError`). -/
 def tokToTextGrid (fwd : List String) (i2t : List (Int × Tok)) (f : Rat) (tierName : String)
     (precision : Nat) (rows : List (Int × Int × Int)) : Except TgCmdErr TgFile :=
-  if !tgMethod1 rows then .error .otherMethod
+  if rows.isEmpty then .error .emptyMax
+  else if !tgMethod1 rows then .error .otherMethod
   else match backTimed i2t f rows with
     | none => .error .value
     | some t =>
